@@ -16,10 +16,14 @@ Result line (harness/c10.cpp): `ok fit <score>|nofit feat … thr … dir … ha
 Every fit (decision trees, k-best / k-split tables included) is computed by the Lean model itself and compared with the
 implementation's; the oracle re-derives the tree (breadth-first greedy, brute-force stump per node), the k-best family (all
 subsets) and the k-split family (greedy agglomeration) independently in python.
+translate() (c10_translate.py) regenerates Gen/WLearner{Criterion,Accumulator,Sweep,Table}.lean from the source text of the tree under check:
+make_score / AIC / AICc / BIC, the accumulator closed forms, the affine / stump / hinge score, coefficient, threshold, acceptance and
+predict formulas; the `model_*_is_generated` obligations (Proofs/WLearnerGen.lean) state that the model text is the generated one.
 """
 import math, os
 import vlib
 from vlib import Toks, lst, f2h, h2f
+from props import c10_translate
 
 ID = "C10"
 LEVEL = "proof"
@@ -42,7 +46,24 @@ OBLIGATIONS = [NS + t for t in [
     "cluTrials_rel", "cluRel_rss", "rssOfC_subsetTable", "kbest_contrib",
     "kbest_fit_eq_brute", "kbest_greedy_optimal_per_size", "ksplit_fit_eq_brute", "kbestCands_spec", "ksplitCands_spec",
     "cluScore_merge", "cluStep_spec", "closestPair_valid", "mergeSort_pairSortSpec", "lsum_take_le_sublist",
+    # translation round (Proofs/WLearnerGen.lean): the model text IS the text regenerated from the C++ source (c10_translate.py)
+    "model_crit_code_is_generated", "model_aic_is_generated", "model_score_is_generated", "model_scoreFloor_is_generated", "model_fitConstant_is_generated",
+    "model_upd_moments_is_generated", "model_upd_residuals_is_generated", "model_affineConst_is_generated",
+    "model_affineW_is_generated", "model_affineB_is_generated", "model_affineRss_is_generated", "model_affineCand_is_generated",
+    "model_lin_is_generated", "model_sideScore_is_generated", "model_sweep_is_generated_stump", "model_sweep_is_generated_hinge",
+    "model_momSub_is_generated", "model_stumpCand_is_generated", "model_pick_is_generated", "model_stump_predict_is_generated",
+    "model_hingeBeta_is_generated", "model_hingeSide_is_generated", "model_hingeCands_is_generated",
+    "model_hinge_predict_is_generated", "model_binScore_is_generated", "model_cluScore_is_generated", "model_tableK_is_generated",
+    "model_pickLex_is_generated",
 ]]
+
+
+def translate():
+    """Gen/WLearnerCriterion.lean, Gen/WLearnerAccumulator.lean, Gen/WLearnerSweep.lean, Gen/WLearnerTable.lean: the scalar formulas of
+    criterion.cpp / stats.h, accumulator.h / affine.cpp, stump.cpp / hinge.cpp, table.cpp / accumulator.cpp re-translated from the source text of the tree under check"""
+    return c10_translate.translate()
+
+
 TRUSTED = [
     "Lean 4.33.0 kernel; Mathlib modules Mathlib.Algebra.Order.Field.Basic, Mathlib.Algebra.Order.Field.Rat, "
     "Mathlib.Tactic.Ring/Linarith/Positivity/FieldSimp/NormNum (only in Proofs/WLearner*.lean and Props/C10.lean)",
@@ -59,6 +80,11 @@ TRUSTED = [
     "every feature chunk to exactly one worker (C17) - hypothesis hperm of fit_assignment_independent - and every worker sees its "
     "features in increasing index order (pool_t::map: chunks enqueued in order into a FIFO queue; hypothesis WorkersSorted, needed "
     "for affine / stump / hinge only: the table caches compare (score, feature) themselves, table_fit_assignment_independent)",
+    "tools/props/c10_translate.py: the translator (expression parser of c14_translate.py, sub-classed) of make_score / AIC / AICc / BIC, "
+    "accumulator_t::fit_constant / rss_zero / update, affine cache_t::constant / w / b / rss_affine / score, stump and hinge ::score / ::beta / "
+    "*_pos / output_* / score_neg / score_pos, the sweep's distinct-values rule, mid-point threshold and acceptance rule, the predict / split "
+    "elements, the table learners' per-bin / per-cluster RSS, parameter counts, rows, acceptance rule and sort key into "
+    "Gen/WLearner{Criterion,Accumulator,Sweep,Table}.lean; Proofs/WLearnerGen.lean proves the model text equal to it (any scalar type)",
     "tools/props/c10.py generator + independent python oracle (brute force over features x mid-point thresholds x directions / "
     "label sets with least-squares coefficients from centred sums); harness/c10.cpp; g++/libstdc++/Eigen",
 ]
@@ -1196,6 +1222,23 @@ def oracle(aug, res):
         if not close(max(prss, CLAMP), score, tol):
             return fail("reproduce", f"{kind}: the RSS of the fitted learner's predictions is {prss!r}, the reported score {score!r} "
                                      f"(feature {feat}, tables {tables})", ckey)
+
+    # ---- (3b) AIC / AICc / BIC: the reported score is the textbook criterion of the RSS of the fitted learner's predictions with the
+    #      learner's parameter count k and sample count n (stump 2T+1, affine 2T, hinge T+1 on the samples of the active side plus the
+    #      missing ones, dense rows*T, dstep T). Only on fits that are not (nearly) perfect: log(rss) amplifies the relative rounding
+    #      error of a tiny RSS (n * relative error), and the floor max(rss, 1e3*eps) is a numerical detail outside the statement.
+    if kind in OPTIMAL_KINDS and not rss_crit:
+        prss = sum(sqerr(r, vecs[i]) for i, r in zip(samples, rs))
+        if prss > 1e-3 * scale2:
+            nfit = len(samples)
+            if kind == "hinge":
+                fx = [fvalue(c["feats"][feat[0]], i) for i in samples]
+                nfit = sum(1 for x in fx if x is None or (x < thr if direction == 0 else not x < thr))
+            kpar = {"stump": 2 * T + 1, "affine": 2 * T, "hinge": T + 1, "dense": nrows * T, "dstep": T}[kind]
+            want = py_score(c["crit"], prss, kpar, nfit)
+            if want is not None and math.isfinite(want) and not score_close(want, score, nfit, 0.0):
+                return fail("criterion", f"{kind}: criterion {c['crit']} of the RSS of the fitted learner's predictions ({prss!r}, k = {kpar}, "
+                                         f"n = {nfit}) is {want!r}, the reported score is {score!r}", ckey)
 
     # ---- (4) scale ----
     size = 1 if c["scalemode"] == 0 else max(1, nrows)
